@@ -294,6 +294,11 @@ def expand_pred(e, F, cls, fn, depth=0):
     e = deep_resolve(e, fn)
     if not isinstance(e, dict) or depth > 3:
         return e
+    if e.get('k') == 'Call' and e.get('ck') == 'member' and e.get('clsq') == cls and e.get('calleeInRoot') and e.get('args') and _FACTS[0] is not None:
+        # bool admitsWrite(std::streamsize n) const { return ...; } - a helper with parameters, bound to what the call passes
+        r = _inline_value_helper(e, fn, depth)
+        if r is not None:
+            return expand_pred(r, F, cls, fn, depth + 1)
     if e.get('k') == 'Call' and e.get('ck') == 'member' and e.get('clsq') == cls and e.get('calleeInRoot') and not e.get('args'):
         o = strip_all_casts(e.get('obj'))
         if isinstance(o, dict) and o.get('k') == 'This':
@@ -1012,24 +1017,63 @@ def T2(F, rep, R, FL, ws):
     rd = [w for w in ws if w['cls'] == cls and w['fn']['simple'] == 'read']
     shape_ok = bool(wr) and bool(rd)
     handoff = None     # shape B: the field through which a waiting reader admits the writer
+    bad_admission = None
+    # the fields read() publishes before it waits: candidates for the hand-off
+    published = set()
+    for w in rd:
+        for x in walk(w['fn']['body'], into_lambda=False):
+            if x.get('k') == 'Bin' and x.get('op') == '=':
+                t_ = strip_all_casts(x['lhs'])
+                if isinstance(t_, dict) and t_.get('k') == 'Member' and t_.get('name') not in ('m_tellg', 'm_gcount', 'm_rdstate'):
+                    published.add(t_['name'])
     for w in wr:
-        s = [expr_str(d) for d in w['disjuncts']]
-        base = len(s) >= 2 and 'm_abort' in s[0] and 'm_bufferSize' in s[1] and '<' in s[1] and 'm_tellp' in s[1] and 'm_tellg' in s[1]
-        if base and len(s) == 2:
-            if handoff:
-                handoff = False     # one overload has the extra disjunct, the other not (K2s reports that)
-        elif base and len(s) == 3:
-            m = re.match(r'^\((?:this\.)?m_tellp(?:\.operator long\(\))? < (?:this\.)?(m_\w+)\)$', s[2])
-            if m and (handoff is None or handoff == m.group(1)) and w is wr[0] or (m and handoff == m.group(1)):
-                handoff = m.group(1)
+        kinds = []
+        for d in w['disjuncts']:
+            sx = expr_str(d).replace('this.', '')
+            m = re.match(r'^\(m_tellp(?:\.operator long\(\))? < (m_\w+)\)$', sx)
+            if sx in ('m_abort', '(m_abort)'):
+                kinds.append(('abort', None))
+            elif 'm_bufferSize' in sx and '<' in sx and 'm_tellp' in sx and 'm_tellg' in sx:
+                kinds.append(('fill', None))
+            elif m and m.group(1) != 'm_bufferSize':
+                kinds.append(('handoff', m.group(1)))
+            else:
+                kinds.append(('other', sx))
+        names = [k_ for k_, _ in kinds]
+        hs = [v_ for k_, v_ in kinds if k_ == 'handoff']
+        others = [v_ for k_, v_ in kinds if k_ == 'other']
+        if not ('abort' in names and 'fill' in names) or len(hs) > 1:
+            shape_ok = False
+        elif others:
+            pub = [o_ for o_ in others if any(re.search(r'\b%s\b' % re.escape(f_), o_) for f_ in published)]
+            if pub:
+                bad_admission = (w, pub[0])
             else:
                 shape_ok = False
-        else:
-            shape_ok = False
+        elif hs:
+            if handoff in (None, hs[0]):
+                handoff = hs[0]
+            else:
+                shape_ok = False
+        elif handoff:
+            handoff = False     # one overload has the extra disjunct, the other not (K2s reports that)
     for w in rd:
         s = [expr_str(d) for d in w['disjuncts']]
-        if not (len(s) == 3 and 'm_abort' in s[0] and 'm_tellp' in s[1] and 'm_fileSize' in s[2]):
+        if not (len(s) == 3 and any('m_abort' in x for x in s) and any('m_tellp' in x for x in s) and any('m_fileSize' in x for x in s)):
             shape_ok = False
+    if bad_admission:
+        # the reader publishes the end of its request; a writer must be admitted as long as the put position is below it.  Any stricter
+        # test (the whole piece has to fit below the request end) leaves a state in which the buffer is full, the reader waits for the
+        # bytes of the piece that straddles its request end, and the writer waits for space that only the reader can free
+        rep.count('T2')
+        w = bad_admission[0]
+        o = rep.ob('T2', 'write|admission-below-request', False, rep.fn_site(w['fn'], w['line']),
+                   '%s is admitted beyond the buffer size on [%s] instead of "put position below the end the waiting reader asked for": a piece that does not end '
+                   'at or before that end is not admitted although the reader waits for its first bytes - both sides wait' % (short(w['fn']['name']), bad_admission[1][:160]),
+                   nontrivial=True)
+        if isinstance(o, dict):
+            o['positive'] = True
+        return
     if not shape_ok or handoff is False:
         rep.notes.append('T2: wait predicates of the stream do not have the premised shape - clause undecided')
         return
@@ -1219,6 +1263,20 @@ def K14(F, rep, R, FL):
     rep.count('K14')
     bad = None
     n = 0
+    # the loop flag of the inflating thread, by role: the std::atomic<bool> member of File that the entry function of the read-mode thread
+    # feeding the in-memory stream tests (whatever it is called)
+    flags = set()
+    for c in R.calls:
+        if c['stage'] == 'm_uncompressedFile' and c['method'] == 'write' and c['role'].startswith('T:') and c['mode'] in ('read', 'any'):
+            for q, t in R.threads.items():
+                if t.get('mode') == 'read' and q.endswith('::' + c['role'][2:]):
+                    for fn_ in F.functions.get(q, []):
+                        for x in walk(fn_['body']):
+                            if x.get('k') == 'Member' and x.get('dk') == 'field' and x.get('owner') == FILE and 'atomic<bool>' in (x.get('t') or ''):
+                                flags.add(x['name'])
+    if not flags:
+        raise AnalysisBroken('K14: the loop flag of the inflating thread was not found')
+    fname = sorted(flags)[0]
     for evs, out in FL.paths(close, follow=()):
         taken = [R._mode_of_cond(e['n']) for e in evs if e['ev'] == 'branch' and e['taken'] and R._mode_of_cond(e['n'])]
         if 'read' not in taken or out not in ('normal', 'return'):
@@ -1228,15 +1286,55 @@ def K14(F, rep, R, FL):
             continue
         n += 1
         stop = [i for i, e in enumerate(evs[:ab[0]]) if e['ev'] == 'call' and e['n'].get('fn') == 'close' and recv_root_(e['n']) == 'm_compressedFile']
-        flag = [i for i, e in enumerate(evs[:ab[0]]) if e['ev'] == 'assign' and _assigned_field(e['n']) == 'm_compressedFileThreadRunning']
+        flag = [i for i, e in enumerate(evs[:ab[0]]) if e['ev'] == 'assign' and _assigned_field(e['n']) in flags]
         if not stop or not flag:
             bad = ('m_uncompressedFile.abort() (line %s) comes before %s' % (evs[ab[0]].get('l'),
-                   ' and '.join(x for x, y in (('m_compressedFile.close()', stop), ('m_compressedFileThreadRunning = false', flag)) if not y)), evs)
+                   ' and '.join(x for x, y in (('m_compressedFile.close()', stop), ('%s = false' % fname, flag)) if not y)), evs)
             break
     rep.ob('K14', 'close|read|producer-stopped-first', bad is None and n > 0, rep.fn_site(close),
            'close() [read]: the inflating thread is stopped (flag cleared, compressed file closed) before the stream it fills is aborted (%d paths)' % n
            if bad is None and n > 0 else 'close() [read]: %s - the inflating thread runs on without back-pressure and buffers the rest of the file' %
            (bad[0] if bad else 'no aborting path'), nontrivial=True)
+
+
+def K15(F, rep, R):
+    """abort is final: the abort flag of a stage is set by abort() and by nothing else, and never cleared.  The flag is what releases every
+    waiter of the stage; a waiter that was released by it and clears it on its way out (or a write that "re-opens" the queue) lets the next
+    wait on the drained stage block for ever"""
+    n = 0
+    for cls in stage_classes(F, R):
+        g, cvs, mtx = guarded_fields(F, cls)
+        if 'm_abort' not in g:
+            continue
+        rep.count('K15')
+        n += 1
+        bad = None
+        sets = 0
+        for fn in methods_of(F, cls):
+            if fn.get('kind') == 'ctor':
+                continue
+            for x in walk(fn['body']):
+                tgt = None
+                if x.get('k') == 'Bin' and x.get('op') in ('=', '|=', '&=', '^='):
+                    tgt, rhs = x['lhs'], x['rhs']
+                elif x.get('k') == 'Un' and x.get('op') in ('++', '--'):
+                    tgt, rhs = x['sub'], None
+                if tgt is None:
+                    continue
+                t = strip_all_casts(tgt)
+                if not (isinstance(t, dict) and t.get('k') == 'Member' and t.get('name') == 'm_abort'):
+                    continue
+                v = strip_all_casts(rhs).get('v') if isinstance(strip_all_casts(rhs), dict) else None
+                if fn['simple'] == 'abort' and x.get('op') == '=' and v == 1:
+                    sets += 1
+                else:
+                    bad = bad or (fn, x.get('l'))
+        rep.ob('K15', '%s|abort-final' % short(cls), bad is None and sets > 0, rep.fn_site(bad[0], bad[1]) if bad else None,
+               '%s: the abort flag is set in abort() and changed nowhere else' % short(cls) if bad is None and sets > 0 else
+               ('%s changes the abort flag (line %s): after an abort the stage can block again - a reader that drains it and reads once more waits for ever'
+                % (short(bad[0]['name']), bad[1])) if bad else '%s::abort() does not set the flag' % short(cls), nontrivial=True)
+    if n < 2:
+        raise AnalysisBroken('K15: expected an abort flag in two stage classes, found %d' % n)
 
 
 def recv_root_(call):
